@@ -2598,7 +2598,7 @@ class Recipe:
                     flows["out"] += vfunc(step.frm[0].wells) - vfunc(step.frm[1].wells)
         precision = config.precisions[unit] if unit in config.precisions else config.precisions['default']
         for key in flows:
-            flows[key] = round(flows[key], precision)
+            flows[key] = np.round(flows[key], precision)
 
         return flows
 
